@@ -330,6 +330,8 @@ func (g *gen) mixedCase() *Case {
 		}
 		if g.n(6) == 0 { // a bare exit at the end of END must keep an earlier status
 			cs.End = append(cs.End, Op{K: "x-"})
+		} else if g.n(6) == 0 { // … and `exit 0` must reset it
+			cs.End = append(cs.End, Op{K: "x", N: 0})
 		}
 	}
 	return cs
@@ -490,6 +492,20 @@ func corpusCases(pool map[string][]string) []*Case {
 		mk([]string{"k2"}, nil, nil, []Rule{tick, {Pat: "r", B: has('b'), E: &Cond{K: "f"}, Raise: "n", RaiseAt: "e", W: has('y'), Body: []Op{e(1)}}, {Pat: "a", Body: []Op{e(2)}}}, []Op{e(900)}),
 		mk([]string{"k2", "k2"}, nil, nil, []Rule{tick, {Pat: "r", B: has('y'), E: has('a'), Raise: "nf", RaiseAt: "b", W: has('b'), Body: []Op{e(1)}}, {Pat: "a", Body: []Op{e(2)}}}, []Op{e(900)}),
 	}
+	cases = append(cases,
+		// exit 3 in a rule, then `exit 0` in END: the status is the LAST exit value, 0
+		mk([]string{"k2"}, nil, nil, []Rule{tick, {Pat: "p", B: &Cond{K: "nr", N: 2}, Body: []Op{{K: "x", N: 3}}}}, []Op{e(900), {K: "x", N: 0}}),
+		mk([]string{"k2"}, nil, []Op{{K: "x", N: 2}}, []Rule{tick}, []Op{e(900), {K: "c", Body: []Op{{K: "x", N: 0}}}}),
+		// FILENAME assigned before the first read, no input operand: stdin is the input all the same (by an operand, in BEGIN, both)
+		mk([]string{"FILENAME=zz"}, []string{"s1", "s2"}, nil, []Rule{tick}, []Op{e(900)}),
+		mk(nil, []string{"s1", "s2"}, []Op{{K: "sf", S: "zz"}, e(800)}, []Rule{tick}, []Op{e(900)}),
+		mk([]string{"", "FILENAME=k1", "v0=1"}, []string{"s1"}, []Op{{K: "sf", S: "q"}, {K: "gv", V: 1}, e(800)}, []Rule{tick}, []Op{e(900)}),
+		// FILENAME assigned by an operand between files and by an action: the next file renames it, the walk is not disturbed
+		mk([]string{"k1", "FILENAME=k2", "k2", "FILENAME=zz"}, nil, nil, []Rule{tick, {Pat: "p", B: &Cond{K: "fnr", N: 1}, Body: []Op{{K: "sf", S: "w"}, e(1)}}}, []Op{e(900)}),
+		// FS assigned between files, after the last file (END keeps the last record's NF), and by an action (next record on)
+		mk([]string{"k2", "FS=a", "k2", "FS=x"}, nil, nil, []Rule{tick}, []Op{e(900)}),
+		mk([]string{"k2"}, nil, []Op{{K: "sfs", S: "b"}}, []Rule{tick, {Pat: "p", B: &Cond{K: "nr", N: 2}, Body: []Op{{K: "sfs", S: " "}, e(1), {K: "g"}, e(2)}}}, []Op{e(900)}),
+	)
 	cases = append(cases, rawCases(pool)...)
 	return cases
 }
